@@ -601,11 +601,25 @@ pub fn c09(tier: Tier) -> ! {
     }
     cli::cleanup();
     run.set("binary_runs", bin_runs);
+    // (4) thorough tier: the same bodies free-running under Miri's data-race detector (run by
+    // the driver script, result handed over in the environment)
+    if tier == Tier::Thorough {
+        let miri = std::env::var("PVX_MIRI").unwrap_or_else(|_| "notrun".into());
+        let selftest = std::env::var("PVX_MIRI_SELFTEST").unwrap_or_else(|_| "notrun".into());
+        run.set("miri_data_race_pass", miri.clone());
+        run.set("miri_detector_self_test", selftest.clone());
+        if miri == "race" {
+            run.fail(None, "Miri reports a data race between threads that optimise their own clones of one state (or read the original meanwhile): the replicas share unsynchronised memory", json!({"engine": "miri", "how": "cd /verif/harness-miri && MIRIFLAGS='-Zmiri-disable-isolation -Zmiri-disable-validation -Zmiri-ignore-leaks' cargo +nightly miri run --offline"}));
+        }
+        if selftest == "missed" {
+            run.assume("Miri did NOT report the deliberately racy self-test in this run: its silence on the real bodies carries no weight");
+        }
+    }
     run.capped = capped;
     run.set("exhaustive", !capped);
     run.set("explanation", "states = interleaving words executed, transitions = baton grants. For 3 start states (hard polygon, hard trimer, LJ trimer) and 4 (quick) / 7 (thorough) plans, k = 2 or 3 replicas run the real optimiser on clones of one common state; a cooperative scheduler parks every replica at every score() call and all schedules with at most the stated number of preemptions (or all schedules) are executed by prefix replay. Oracle: each replica's JSON equals its solo run bit for bit, the common original never changes, every plan has exactly one outcome. Then every order-preserving binary reduction tree over 6 real result states with ties selects the sequential maximum, and the real analyse_state pipeline (in-process, rayon pools of 1..16 threads, twice each) and the real binary (RAYON_NUM_THREADS, twice each) produce byte-identical .json and .svg.");
     run.assume("rayon's own scheduler is not driven; the argument is compositional: replicas share nothing at score()-granularity interleaving (finer than any split between whole replicas), the reduction is order-insensitive over all trees, and 1..16-thread runs bind both to the real pool");
-    run.assume("data races invisible to a cooperative scheduler are outside this check (no synchronisation primitive exists in the crate for loom/shuttle to intercept)");
+    run.assume("data races invisible to a cooperative scheduler are outside the interleaving sweep (no synchronisation primitive exists in the crate for loom/shuttle to intercept); the thorough tier adds a free-running pass under Miri's race detector as corroborating evidence (not part of the deciding enumeration)");
     run.require(words > 100, "too few interleavings");
     run.finish()
 }
